@@ -211,6 +211,7 @@ def run(ctx):
         return
     d = os.path.join(vlib.BUILD, "cases", "C03")
     os.makedirs(d, exist_ok=True)
+    load_induced = {}
     sizes = {"byte": (1000, 300), "struct": (700, 200)} if ctx.tier == "thorough" else {"byte": (120, 36), "struct": (90, 27)}
     for level, (n, mal) in sizes.items():
         fmts = [f for f, v in FORMATS.items() if v["level"] == level]
@@ -222,6 +223,8 @@ def run(ctx):
         while todo:
             rc, out = vlib.sh([binp, "-outdir", d, "-seed", str(ctx.seed), "-n", str(n), "-mal", str(mal),
                                "-formats", ",".join(todo)], timeout=1800)
+            for fm, k in re.findall(r"^load_induced_timeouts format=(\w+) n=(\d+)", out, re.M):
+                load_induced[fm] = load_induced.get(fm, 0) + int(k)
             if rc == 3:
                 m = re.search(r"^timeout format=(\w+)", out, re.M)
                 if not m or m.group(1) not in todo:
@@ -332,6 +335,9 @@ def run(ctx):
             s.pop("bytes_b64", None)
             samples.append(s)
     ctx.coverage["known_findings"] = known_replay
+    ctx.coverage["load_induced_timeouts"] = {"count": sum(load_induced.values()), "per_format": load_induced,
+                                             "rule": "an Extract call that passes the harness deadline (2 s) is a hang only if the harness process burned > 2.4 s CPU since the call "
+                                                     "started or the call is still running after 20 s; slower returns are counted here and compared as usual"}
     ctx.coverage.update({
         "evaluations": evals,
         "distinct_nontrivial": len(seen),
